@@ -34,11 +34,20 @@ def plan(seed, tier):
     # services in sibling proto sub-packages
     cases += [{"id": f"meta-sub-{seed}-{i}", "seed": seed * 100003 + 6000 + i, "transport": TRANSPORTS[i % 3], "internal": False, "subpkg": True}
               for i in range(3 if tier == "quick" else 15)]
+    # the API declares IAM RPCs itself AND the service YAML lists the IAM mixin (the API's own RPCs are the ones described)
+    cases += [{"id": f"meta-owniam-{seed}-{i}", "seed": seed * 100003 + 6500 + i, "transport": TRANSPORTS[i % 3], "internal": False, "own_iam": True}
+              for i in range(3 if tier == "quick" else 9)]
     return cases
 
 
 def build_api(case):
     rng = random.Random(case["seed"])
+    if case.get("own_iam"):
+        own = [["SetIamPolicy"], ["SetIamPolicy", "GetIamPolicy", "TestIamPermissions"], ["GetIamPolicy", "SetIamPolicy"]][case["seed"] % 3]
+        api = apigen.mixin_api(rng, "k%d" % (case["seed"] % 100000), rng.choice([["iam"], ["iam", "locations"]]), "all", own_iam=own,
+                               transport=case["transport"], annex=None)
+        api.options = [f"transport={case['transport']}", "metadata", "autogen-snippets=false"]
+        return api, rng
     if case.get("subpkg"):
         api = apigen.prefix_packages_api(rng, "k%d" % (case["seed"] % 100000), layout="prefix3", services=True)
         api.options = [f"transport={case['transport']}", "metadata", "autogen-snippets=false"]
